@@ -32,52 +32,60 @@ def run(ctx):
     cfg = cfg_of(wr)
 
     enc = [n for n in walk_local(wr.node) if isinstance(n, ast.Call) and isinstance(n.func, ast.Name) and n.func.id == "write_data"]
-    if len(enc) != 1:
-        raise AnalysisError("Writer.write: expected exactly one write_data call")
-    en = cfg.node_of(enc[0])
-    buf = norm(enc[0].args[0])  # self.io
+    if not enc:
+        raise AnalysisError("Writer.write: no write_data call")
+    enc_all = list(enc)
+    all_exc_succ = []
 
     # ---- R1 failed write leaves no residue ---------------------------------------------------
     ctx.rule("C07.R1", "every exceptional exit after the call that encodes into the pending buffer passes through a restoration of that buffer (truncate and seek to a position saved before the call)", floor=1)
-    # positions saved before the call: v = <buf>._fo.tell() dominating the call
-    saved = {}
-    for n in walk_local(wr.node):
-        if isinstance(n, ast.Assign) and len(n.targets) == 1 and isinstance(n.targets[0], ast.Name) and norm(n.value) == f"{buf}._fo.tell()":
-            if cfg.dominates(cfg.node_of(n), en):
-                saved[n.targets[0].id] = n
-    trunc, seek = [], []
-    for n in walk_local(wr.node):
-        if isinstance(n, ast.Call) and isinstance(n.func, ast.Attribute) and norm(n.func.value) == f"{buf}._fo" and n.args and isinstance(n.args[0], ast.Name) and n.args[0].id in saved:
-            if n.func.attr == "truncate":
-                trunc.append(cfg.node_of(n))
-            elif n.func.attr == "seek" and (len(n.args) == 1 or norm(n.args[1]) in ("SEEK_SET", "0", "os.SEEK_SET", "io.SEEK_SET")):
-                seek.append(cfg.node_of(n))
-    exc_succ = [m for (m, lab) in en.succ if lab == "exc"]
-    # scratch-encoder idiom: the encoding call does not target the pending buffer at all
-    if buf != "self.io":
-        ctx.unrecognised("C07.R1", "Writer.write", wr.where(enc[0]), f"record is encoded into {buf}, not self.io: scratch-buffer idiom not modelled")
-    else:
-        ok = True
-        why = ""
-        # a failure of the restoration calls themselves is not part of the obligation
-        own_exc = {(r, m2, lab) for r in trunc + seek for (m2, lab) in r.succ if lab == "exc"}
-        for m in exc_succ:
-            start = {m} | cfg.reachable_from(m)
-            if m is cfg.raise_exit or cfg.raise_exit in start or cfg.exit in start:
-                for goal in (cfg.raise_exit, cfg.exit):
-                    for via, what in ((trunc, "truncate"), (seek, "seek")):
-                        reach = {m} | cfg.reachable_from(m, avoid=via, skip_edges=own_exc)
-                        if m in via:
-                            continue
-                        if goal in reach:
-                            ok = False
-                            why = f"an exceptional path from the encoding call reaches the function's {'exceptional' if goal is cfg.raise_exit else 'normal'} exit without {what}() of the pending buffer back to the saved position"
-        ctx.check("C07.R1", "Writer.write: rollback of the pending buffer on failure", ok and bool(exc_succ), wr.where(enc[0]), "Writer.write: write_data(self.io, ...) exceptional exit", why or "no exception edge found")
-        # the handler must re-raise (the failure is reported, not swallowed)
-        for m in exc_succ:
-            if m.kind == "handler":
-                reach = {m} | cfg.reachable_from(m)
-                ctx.check("C07.R1", "Writer.write: the failure is re-raised after the rollback", cfg.exit not in reach, wr.where(m.stmt), "Writer.write: handler completes normally", "a failed write is swallowed: the caller believes the record was written")
+    for one in enc_all:
+        enc = [one]
+        en = cfg.node_of(enc[0])
+        buf = norm(enc[0].args[0])  # self.io
+        # positions saved before the call: v = <buf>._fo.tell() dominating the call
+        saved = {}
+        for n in walk_local(wr.node):
+            if isinstance(n, ast.Assign) and len(n.targets) == 1 and isinstance(n.targets[0], ast.Name) and norm(n.value) == f"{buf}._fo.tell()":
+                if cfg.dominates(cfg.node_of(n), en):
+                    saved[n.targets[0].id] = n
+        trunc, seek = [], []
+        for n in walk_local(wr.node):
+            if isinstance(n, ast.Call) and isinstance(n.func, ast.Attribute) and norm(n.func.value) == f"{buf}._fo" and n.args and isinstance(n.args[0], ast.Name) and n.args[0].id in saved:
+                if n.func.attr == "truncate":
+                    trunc.append(cfg.node_of(n))
+                elif n.func.attr == "seek" and (len(n.args) == 1 or norm(n.args[1]) in ("SEEK_SET", "0", "os.SEEK_SET", "io.SEEK_SET")):
+                    seek.append(cfg.node_of(n))
+        exc_succ = [m for (m, lab) in en.succ if lab == "exc"]
+        # scratch-encoder idiom: the encoding call does not target the pending buffer at all
+        if buf != "self.io":
+            ctx.unrecognised("C07.R1", "Writer.write", wr.where(enc[0]), f"record is encoded into {buf}, not self.io: scratch-buffer idiom not modelled")
+        else:
+            ok = True
+            why = ""
+            # a failure of the restoration calls themselves is not part of the obligation
+            own_exc = {(r, m2, lab) for r in trunc + seek for (m2, lab) in r.succ if lab == "exc"}
+            for m in exc_succ:
+                start = {m} | cfg.reachable_from(m)
+                if m is cfg.raise_exit or cfg.raise_exit in start or cfg.exit in start:
+                    for goal in (cfg.raise_exit, cfg.exit):
+                        for via, what in ((trunc, "truncate"), (seek, "seek")):
+                            reach = {m} | cfg.reachable_from(m, avoid=via, skip_edges=own_exc)
+                            if m in via:
+                                continue
+                            if goal in reach:
+                                ok = False
+                                why = f"an exceptional path from the encoding call reaches the function's {'exceptional' if goal is cfg.raise_exit else 'normal'} exit without {what}() of the pending buffer back to the saved position"
+            ctx.check("C07.R1", "Writer.write: rollback of the pending buffer on failure", ok and bool(exc_succ), wr.where(enc[0]), "Writer.write: write_data(self.io, ...) exceptional exit", why or "no exception edge found")
+            # the handler must re-raise (the failure is reported, not swallowed)
+            for m in exc_succ:
+                if m.kind == "handler":
+                    reach = {m} | cfg.reachable_from(m)
+                    ctx.check("C07.R1", "Writer.write: the failure is re-raised after the rollback", cfg.exit not in reach, wr.where(m.stmt), "Writer.write: handler completes normally", "a failed write is swallowed: the caller believes the record was written")
+
+        all_exc_succ.extend(exc_succ)
+    exc_succ = all_exc_succ
+    enc_nodes = [cfg.node_of(e_) for e_ in enc_all]
 
     # ---- R2 count after success -----------------------------------------------------------------
     ctx.rule("C07.R2", "block_count is incremented after the encoding call succeeded and is not reachable from its exception edge", floor=1)
@@ -89,7 +97,7 @@ def run(ctx):
         from_exc = set()
         for m in exc_succ:
             from_exc |= {m} | cfg.reachable_from(m)
-        ok = cfg.dominates(en, ic) and ic not in from_exc
+        ok = ic not in ({cfg.entry} | cfg.reachable_from(cfg.entry, avoid=enc_nodes)) and ic not in from_exc
         ctx.check("C07.R2", "Writer.write: increment only after success", ok, wr.where(inc[0]), f"Writer.write: {norm(inc[0])}", "block_count can be incremented although the record was not (completely) encoded, or before it is encoded")
 
     # ---- R3 write_block -----------------------------------------------------------------------------
@@ -152,7 +160,19 @@ def run(ctx):
         every = all(m in anodes or cfg.must_pass(m, cfg.exit, anodes, skip_labels=("exc",)) for m in starts)
         ctx.check("C07.R5", f"append arm: {attr} is taken from the existing file on every path", every, wi.where(sts[0]), f"Writer.__init__: a path through the append arm keeps the constructor's {attr}", f"records appended with the caller's {attr} instead of the file's are encoded or framed differently from what the file's own header says (a schema with an equal canonical form can still differ in logical types, defaults or aliases)")
         for st in sts:
-            txt = norm(st.value)
+            # a local of the arm that is bound once stands for its value (`marker = header['sync']; self.sync_marker = marker`)
+            import copy as _copy
+
+            class _Expand(ast.NodeTransformer):
+                def visit_Name(self, n):
+                    if isinstance(n.ctx, ast.Load) and n.id != RD and n.id in arm_assigns and len(arm_assigns[n.id]) == 1 and not any(isinstance(x, ast.Name) and x.id == n.id for x in ast.walk(arm_assigns[n.id][0].value)):
+                        return _copy.deepcopy(arm_assigns[n.id][0].value)
+                    return n
+
+            ev_ = _copy.deepcopy(st.value)
+            for _ in range(3):
+                ev_ = _Expand().visit(ev_)
+            txt = norm(ev_)
             ok = must in txt and header_derived(st.value) and not any(p_ in {x.id for x in ast.walk(st.value) if isinstance(x, ast.Name) and x.id not in arm_assigns} for p_ in params)
             ctx.check("C07.R5", f"append arm: {attr} derived from the existing file", ok, wi.where(st), f"Writer.__init__: {norm(st)}", f"{attr} must come from the existing file's header (reader / header), not from the constructor's arguments")
     # self.sync_marker/self.block_writer must not be (re)assigned after the arm from arguments: only the two arms assign them
